@@ -263,7 +263,7 @@ def check(run):
     for residues in small_files():
         tid += 1
         items.append((tid, 'small', residues))
-    nrand = 120 if run.quick else 3000
+    nrand = 400 if run.quick else 3000
     base = 2 * 10 ** 6 if run.quick else 10 ** 6
     for j in range(nrand):
         items.append((base + j, 'rand', run.seed * 1000003 + j))
